@@ -30,13 +30,25 @@ MANIFEST = dict(
           "slack, status facts incl. converged => the last line search succeeded. Tie: 600 "
           "(thorough 12000) whole runs of the real gd / cgd-* / lbfgs / quasi solvers with a recording function and a "
           "recording lsearch0: the extracted model must request exactly the recorded evaluation points bit for bit and end "
-          "in the same state, status and counters."),
+          "in the same state, status and counters. Extension 2 (stage bodies): the whole do_minimize of sgm.cpp, cocob.cpp and "
+          "pdsgm.cpp (sda, wda) is inside the model (body_run = one skeleton over a rule computing the next point; element-wise "
+          "vector code bit-exact; lpNorm<2>, libm pow and tanh are oracle inputs) and, for every oracle / parameter value / budget: "
+          "termination with exactly one evaluation per pass and at most max(2, max_evals + 1) evaluations (also for ANY rule), the "
+          "returned triple is an oracle answer, fx <= f(x0) in binary64 for a finite start, valid unless failed, `converged` means "
+          "exactly value_test(patience) < epsilon after a finite evaluation or the zero-sub-gradient exit (the reading `converged => "
+          "near-optimal` is refuted with a witness and reproduced on the real wda), cocob's L >= |g| and reward >= 0, the guard of "
+          "the division by |g|. Tie: 800 (thorough 16000) whole runs of the real sgm / cocob / sda / wda replayed bit for bit. "
+          "Targeted family T4 (repo commit 31bf93f): rqb / fpba on convex functions with max_evals 10..20 -- the budget running out "
+          "inside the curve search must not resurrect the status of the previous call (direct oracle worse-than-start)."),
     note=("Coq kernel; Flocq + FloatAxioms (binary64 = PrimFloat); translator (31 kernels); extraction (ExtrOcamlBasic + "
           "ExtrOCamlFloats); harness + OCaml driver; NANO_VERIF hooks in solver.cpp/augmented.cpp/random.cpp (add-only); "
           "Eigen reductions are inputs, only max-abs / scalar code is recomputed bit-exactly; NDEBUG build. Extension lsloop: "
           "+ C07's model/kernels/PrimFloat reading, 4 kernels (final return of gd/cgd/lbfgs/quasi), harness c02_lsloop.cpp, "
           "driver c02ls_driver.ml; 'accepted steps are not negative and the Armijo bound is finite' is a ghost flag of the "
-          "model, searched on the implementation."),
+          "model, searched on the implementation. Extension bodies: + 17 kernels (group c02b: decisions of sgm.cpp / cocob.cpp / "
+          "pdsgm.cpp), harness c02_bodies.cpp, driver c02b_driver.ml (tanh / pow of the OCaml runtime = the same libm); lpNorm<2> "
+          "recomputed by the harness with the library's expression (cross-checked against long double); Eigen's lpNorm<Infinity> = "
+          "max-abs on NaN-free vectors; the dead members of pdsgm's model_t (m_Sk, m_xk1h, m_lgx) are not modelled."),
     technique="Coq proof over a translated+extracted binary64 model, differential correspondence, trace acceptance, direct oracle with a recording function",
     design="DESIGN.md section 2, C02")
 
@@ -63,6 +75,11 @@ def setup():
     vlib.build_harness("c02_lsloop", "rel")
     try:
         vlib.build_ocaml("c02ls_driver", "c02ls_model.ml", "c02ls_driver.ml", floats=True)
+    except (vlib.CheckError, OSError):
+        pass
+    vlib.build_harness("c02_bodies", "rel")
+    try:
+        vlib.build_ocaml("c02b_driver", "c02b_model.ml", "c02b_driver.ml", floats=True)
     except (vlib.CheckError, OSError):
         pass
 
@@ -359,10 +376,153 @@ def stage_lsloop(r, cres):
     }
 
 
+# ------------------------------------------------------------------------------------------------------------------------
+# stage "bodies": whole runs of the real sgm / cocob / sda / wda solvers replayed by the extracted body_run (C02_Bodies_Defs.v)
+# ------------------------------------------------------------------------------------------------------------------------
+B_HARNESS = "c02_bodies"
+
+
+def _b_block(path, rid, limit=60):
+    out, on = [], False
+    try:
+        with open(path) as f:
+            for l in f:
+                l = l.rstrip("\n")
+                t = l.split(" ", 2)
+                if len(t) > 1 and t[1] == rid and (t[0] in ("BRUN", "BEV", "BDN", "BRET", "BEND", "FAIL")):
+                    on = True
+                    out.append(l[:700])
+                    if t[0] == "BEND":
+                        break
+                elif on and t[0] == "BRUN":
+                    break
+    except OSError:
+        pass
+    if len(out) > limit:
+        out = out[:14] + ["... (%d lines omitted)" % (len(out) - 40)] + out[-26:]
+    return out
+
+
+def stage_bodies(r, cres):
+    import shlex
+    exe = vlib.build_harness(B_HARNESS, "rel")
+    drv = None
+    try:
+        drv = vlib.build_ocaml("c02b_driver", "c02b_model.ml", "c02b_driver.ml", floats=True)
+    except (vlib.CheckError, OSError):
+        if cres["ok"]:
+            raise
+    rundir = os.path.join(vlib.WORK, "c02b")
+    os.makedirs(rundir, exist_ok=True)
+    out_path = os.path.join(rundir, "run-%d-%s.txt" % (r.seed, r.tier))
+    rc, err = vlib.sh("%s %s > %s" % (shlex.quote(exe), shlex.quote(r.tier), shlex.quote(out_path)), timeout=3000,
+                      env={"VERIF_SEED": str(r.seed)})
+    replay_cmd = "VERIF_SEED=%d %s %s" % (r.seed, exe, r.tier)
+    fails, done, hist, nruns = [], "", "", 0
+    with open(out_path) as f:
+        for l in f:
+            if l.startswith("FAIL "):
+                fails.append(l.rstrip("\n"))
+            elif l.startswith("DONE "):
+                done = l.strip()
+            elif l.startswith("BHIST"):
+                hist = l.strip()
+            elif l.startswith("BRUN "):
+                nruns += 1
+    if rc != 0 or not done:
+        r.violation("bodies-crash", {"kind": "implementation crashed / did not terminate in a whole solver run (exit %s)" % rc,
+                                     "tail": err[-1500:], "replay_cmd": replay_cmd}, fingerprint="bodies-crash")
+    seen = set()
+    for l in fails:
+        m = re.match(r"FAIL (\d+) (\S+)", l)
+        rid, clause = (m.group(1), m.group(2)) if m else ("?", "?")
+        if clause in seen or len(seen) >= 4:
+            continue
+        seen.add(clause)
+        blk = _b_block(out_path, rid)
+        solver = blk[0].split(" ")[2] if blk else "?"
+        r.violation("bodies-impl-%s" % re.sub(r"[^A-Za-z0-9_.-]", "_", clause[:40]), {"kind": "direct property check failed on a whole run of the implementation",
+                                                     "clause": clause, "what": l[:600], "run": blk,
+                                                     "replay_cmd": replay_cmd + " " + rid},
+                    fingerprint="bodies:%s:%s" % (solver, clause))
+    stats, dhist, mism, pf = {}, "", [], []
+    if drv:
+        rc2, mout = vlib.sh("%s < %s" % (shlex.quote(drv), shlex.quote(out_path)), timeout=3000)
+        for l in mout.split("\n"):
+            if l.startswith("MISMATCH"):
+                mism.append(l)
+            elif l.startswith("PROPFAIL"):
+                pf.append(l)
+            elif l.startswith("HIST "):
+                dhist = l[5:]
+            elif l.startswith("MODEL-DONE"):
+                stats = {k: int(v) for k, v in re.findall(r"(\w+)=(\d+)", l)}
+        if rc2 != 0 or not stats.get("checked"):
+            r.violation("bodies-driver", {"kind": "model driver failed", "out": mout[-2000:]}, no_input=True)
+        for i, l in enumerate(pf[:3]):
+            m = re.search(r"RUN (\d+)", l)
+            r.violation("bodies-prop-%d" % i, {"kind": "conclusion of a C02_bodies theorem fails on the recorded run of the implementation",
+                                               "what": l[:1500], "run": _b_block(out_path, m.group(1)) if m else [],
+                                               "replay_cmd": replay_cmd + (" " + m.group(1) if m else "")})
+        for i, l in enumerate(mism[:3]):
+            m = re.search(r"RUN (\d+)", l)
+            r.violation("bodies-corr-%d" % i, {"kind": "the extracted body_run and the real solver disagree on a whole run",
+                                               "what": l[:1500], "run": _b_block(out_path, m.group(1)) if m else [],
+                                               "replay_cmd": replay_cmd + (" " + m.group(1) if m else "")})
+    samples = []
+    with open(out_path) as f:
+        for l in f:
+            if l.startswith(("BRUN 5 ", "BEV 5 0 ", "BEV 5 1 ", "BDN 5 0 ", "BRET 5 ")):
+                samples.append(l.strip()[:260])
+    return {
+        "_evaluations": stats.get("checked", 0),
+        "_distinct": stats.get("passes", 0),
+        "_trusted": ["bodies: harness/c02_bodies.cpp (recording function_t, done() hooks; lpNorm<2> / lpNorm<Infinity> / std::pow recomputed "
+                     "with the library's own expressions and cross-checked against long double), ocaml/c02b_driver.ml (libm tanh/pow of the "
+                     "OCaml runtime), extraction Extract_C02B.v; 17 translated kernels of sgm.cpp / cocob.cpp / pdsgm.cpp (group c02b)"],
+        "bodies_runs_replayed": stats.get("checked", 0),
+        "bodies_runs": nruns,
+        "bodies_evaluations_matched_bit_for_bit": stats.get("evaluations", 0),
+        "bodies_passes": stats.get("passes", 0),
+        "bodies_mismatches": len(mism),
+        "bodies_theorem_mirror_failures": len(pf),
+        "bodies_impl_direct_failures": len(fails),
+        "bodies_ambiguous_skipped": stats.get("ambiguous_skipped", 0),
+        "bodies_tanh_calls": stats.get("tanh_calls", 0),
+        "bodies_pow_differs_from_driver_libm": stats.get("pow_differs_from_this_libm", 0),
+        "bodies_harness_histogram": hist[6:] if hist else "",
+        "bodies_model_histogram": dhist,
+        "bodies_rule": ("whole runs: solver in {sgm, cocob, sda, wda} (1/4 each) x objective in {48 registered functions (smooth and not, convex "
+                        "and not), random quadratics, max-of-affine, scaled |x - c|_1 (exactly zero sub-gradient at c), 1-D adversarial (NaN "
+                        "wall, oscillating, overflow, steep kink, plateau, barrier)} optionally restricted to a box (NaN / +inf / infinite "
+                        "sub-gradient / -inf outside) or scaled by 1e-220..1e-150 / 1e100..1e300 x dims {1,2,3,4,8,16} x x0 (random, 0, "
+                        "quarter-integers, 1) x epsilon (1e-300..1e-1) x max_evals (10..14, 10..40, 40..120, 20..400/2000) x patience (10, "
+                        "10..12, 10..40, 1000, 1e6) x power (0.5, 0.75, 1, random) / L0 and D (DBL_MAX, 1e-300, default, 1e-20..1e6); "
+                        "distinct = passes replayed"),
+        "bodies_samples": samples[:6],
+    }
+
+
+def stage_extensions(r, cres):
+    """both extension stages; their private keys are merged"""
+    a = stage_lsloop(r, cres)
+    b = stage_bodies(r, cres)
+    out = dict(a)
+    for k, v in b.items():
+        if k in ("_evaluations", "_distinct"):
+            out[k] = out.get(k, 0) + v
+        elif k == "_trusted":
+            out[k] = list(out.get(k, [])) + list(v)
+        else:
+            out[k] = v
+    return out
+
+
 def run(tier, replay=None):
     return run_shared(
         "C02", "c02", tier, [],
-        ["termination of minimize() (every run must return; a hang is a crash violation)",
+        ["termination of minimize() (every run must return; a hang is a crash violation) -- proved for the line-search loop (lsloop) and "
+         "for sgm / cocob / sda / wda (bodies); searched for osga, asga*, ellipsoid, pgm/dgm/fgm, rqb, fpba*, gs*, the constrained solvers",
          "reported value = f(returned point) on the real solvers (recording wrapper: the returned (x, fx[, gx]) must be one of "
          "the evaluated triples bit for bit, and agree with a fresh evaluation within 1e-9 relative) -- the theorem covers "
          "clients that only store evaluated triples; that every solver body is such a client is searched",
@@ -376,5 +536,8 @@ def run(tier, replay=None):
          "bit-exact comparison of gradient_test and counted as ambiguous_skipped)",
          "the constraint values / multipliers of a state enter valid() as one observed flag",
          "the gradient-sampling solvers are made deterministic with verif::g_rng_seed",
-         "lsloop: gx.dot(descent) is taken from the run (Eigen reduction); x + t*d, -gx, the line searches, done() are bit-exact"],
-        pre_coq=_pre_coq_lsloop, coq_targets=["theories/Extract_C02LS.vo"], stage=stage_lsloop)
+         "lsloop: gx.dot(descent) is taken from the run (Eigen reduction); x + t*d, -gx, the line searches, done() are bit-exact",
+         "bodies: g.lpNorm<2>() as recomputed by the harness with the same Eigen expression is the value the library read (validated by "
+         "the bit-exact next evaluation point); std::tanh / std::pow of the OCaml runtime are the libm functions the library calls",
+         "bodies: max_evals >= 10 and patience >= 10 (registered domains) in the runs; the theorems hold for every integer"],
+        pre_coq=_pre_coq_lsloop, coq_targets=["theories/Extract_C02LS.vo", "theories/Extract_C02B.vo"], stage=stage_extensions)
